@@ -32,7 +32,7 @@ ANCHORS = [
     "stereomolgraph.graphs.scrg:StereoCondensedReactionGraph.relabel_atoms",
 ]
 REQUIRED_ANCHORS = ANCHORS
-REQUIRED = ["eq_observed", "with_changes", "with_placeholder", "with_unspecified", "empty_graph", "isolated_atoms", "harness_crosscheck"]
+REQUIRED = ["eq_observed", "with_changes", "with_placeholder", "with_unspecified", "empty_graph", "isolated_atoms", "harness_crosscheck", "disconnected"]
 VARIANTS = ("rebuild", "relabel_copy", "relabel_inplace", "rewrite", "all")
 
 
@@ -50,7 +50,7 @@ def features(pg):
 
 def gen_cases(ctx):
     rng = ctx.rng
-    n = ctx.n(6000, 150000)
+    n = ctx.n(12000, 200000)
     big = (1, 10) if ctx.tier == "quick" else (1, 24)
     for i in range(n):
         cls = CLASS_NAMES[i % 4]
@@ -61,6 +61,8 @@ def gen_cases(ctx):
             pg = sem.pg_empty(cls)
         elif special == 1:
             pg = gen.random_pg(rng, cls, n_range=(1, 1), allow_isolated=False)
+        elif special in (2, 3, 4):
+            pg = gen.wl_hard_pg(rng, cls)  # unions of 1-WL-indistinguishable, non-isomorphic components
         else:
             pg = gen.random_pg(rng, cls, n_range=big if rng.random() < 0.3 else (2, 9), alphabet=rng.choice([gen.TINY, gen.SMALL, gen.WIDE]), p_none=p_none, allow_empty=False)
         m = gen.random_bijection(rng, pg)
@@ -114,6 +116,8 @@ def check_case(ctx, case):
         ctx.count("empty_graph")
     if "isolated" in feats:
         ctx.count("isolated_atoms")
+    if len(sem.pg_components(pg)) > 1:
+        ctx.count("disconnected")
     obs = (("a==b", lambda: g == g2), ("b==a", lambda: g2 == g), ("a.is_isomorphic(b)", lambda: g.is_isomorphic(g2)), ("a==a", lambda: g == g), ("b==b", lambda: g2 == g2))
     for name, f in obs:
         try:
